@@ -63,6 +63,9 @@ type Knobs struct {
 	// PReuse: chance that a value is written through an already declared variable of the
 	// same type (and, for accounts / assets, the same value) instead of a fresh spelling
 	PReuse int
+	// SafeBalanceOrigins: balance() is only applied to (account, asset) pairs whose balance
+	// is not negative, so that the variable block cannot fail
+	SafeBalanceOrigins bool
 	// PWorldOddPlaces: chance that @world is used where it is legal but unusual: as the
 	// account of a save statement or of a balance() / overdraft() origin
 	PWorldOddPlaces int
@@ -635,6 +638,13 @@ func (g *TG) balanceOrigin() {
 	cur := new(big.Int)
 	if v, ok := g.Bal[acct][asset]; ok && acct != "world" {
 		cur.Set(v)
+	}
+	if g.K.SafeBalanceOrigins && fn == "balance" && cur.Sign() < 0 {
+		if !g.K.OverdraftFlag {
+			return
+		}
+		fn = "overdraft"
+		g.UsesOverdraftFn = true
 	}
 	val := new(big.Int).Set(cur)
 	if fn == "overdraft" {
